@@ -1,4 +1,5 @@
 PROP = dict(
+    ready=True,
     coq=["theories/Properties/C09.v"],
     suites=[dict(bin="obs-posting")],
     trusted=[
